@@ -2,42 +2,37 @@ package main
 
 import (
 	"fmt"
-	"math/rand"
-	"net"
-	"strings"
+	"os"
+	"time"
 
-	fzf "github.com/junegunn/fzf/src"
+	"verif/harness/tty"
 )
 
 func main() {
-	rng := rand.New(rand.NewSource(1))
-	raws := []string{"GET / HTTP/1.1\r\nx-api-key:\tpässwördpässwörd\r\n\r\n", "GET /?limit=5 HTTP/1.1\r\nUser-Agent: curl/8\r\nAccept:\ta:b:c\r\nX-Api-Key: pässwördx\r\n\r\n"}
-	for t := 0; t < 200000; t++ {
-		raw := []byte(raws[t%2])
-		c, s := net.Pipe()
-		var cuts []int
-		go func() {
-			data := raw
-			for len(data) > 0 {
-				n := 1 + rng.Intn(1+rng.Intn(40))
-				if n > len(data) {
-					n = len(data)
-				}
-				cuts = append(cuts, n)
-				if _, err := c.Write(data[:n]); err != nil {
-					return
-				}
-				data = data[n:]
-			}
-			c.Close()
-		}()
-		reply, _, gets := fzf.VerifHandleHTTP(s, "pässwörd", "STATE")
-		if gets > 0 || strings.Contains(reply, "200") {
-			fmt.Printf("trial %d cuts %v -> %q\n", t, cuts, reply)
-			break
-		}
-		s.Close()
-		c.Close()
+	os.Setenv("VERIF_SCRATCH", "/tmp/probe-scr")
+	os.MkdirAll("/tmp/probe-scr", 0o755)
+	s, err := tty.Start(tty.StartOpts{InputCmd: "seq 5000", Cols: 100, Rows: 30})
+	if err != nil {
+		fmt.Println("start:", err)
+		return
 	}
-	fmt.Println("done")
+	defer s.Close()
+	st, ok := s.WaitQuiescent(10 * time.Second)
+	fmt.Println("initial", ok, st != nil)
+	for round := 0; round < 5; round++ {
+		s.Post("execute-silent(sleep 0.15)")
+		s.Post("put(1)")
+		s.Post("toggle-sort")
+		s.Post("put(2)")
+		t0 := time.Now()
+		st, ok = s.WaitQuiescent(8 * time.Second)
+		fmt.Println("round", round, ok, time.Since(t0), "posted", s.Posted)
+		if !ok {
+			for _, e := range s.Trace()[len(s.Trace())-14:] {
+				fmt.Printf("  %s(%d,%d,%s)\n", e.Kind, e.A, e.B, e.S)
+			}
+			st2, err := s.Get(10)
+			fmt.Println(st2, err)
+		}
+	}
 }
